@@ -22,11 +22,12 @@ From Shexer Require Import Model.EntryC06.
 From Shexer Require Import Model.EntryShaclDoc.
 From Shexer Require Import Model.EntryRunDecor.
 From Shexer Require Import Model.EntryRunMap.
+From Shexer Require Import Model.EntryProfile.
 From Shexer Require Import Model.EntryRunMapShacl.
 Import ListNotations.
 
 Definition entries : list (str -> table -> option table) :=
-  [entry_c20; entry_pipe; entry_bin64; entry_c17; entry_c11; entry_c10; entry_c16; entry_c05; entry_c18; entry_c19; entry_c08; entry_c07; entry_c07b; entry_c03; entry_c15; entry_c06; entry_shacldoc; entry_rundecor; entry_runmap; entry_runmapshacl].
+  [entry_c20; entry_pipe; entry_bin64; entry_c17; entry_c11; entry_c10; entry_c16; entry_c05; entry_c18; entry_c19; entry_c08; entry_c07; entry_c07b; entry_c03; entry_c15; entry_c06; entry_shacldoc; entry_rundecor; entry_runmap; entry_profile; entry_runmapshacl].
 
 Fixpoint dispatch (l : list (str -> table -> option table)) (name : str) (t : table) : table :=
   match l with
